@@ -714,7 +714,10 @@ def check_C18(H):
             out.append(V('C18', 'rho_increased_within_run', site, 'run %d' % int(r_)))
         if det:
             ff = fk[m]
-            d = np.diff(ff)
+            with np.errstate(all='ignore'):
+                # the same sum of squares is recomputed for the saved copy and for the table row of a point: the two dot products can
+                # differ in the last bit (memory layout), so an "increase" of a few ulp is no increase (seen once: 1 ulp, soak seed 10)
+                d = np.diff(ff) - 8 * EPS * np.abs(ff[:-1])
             if np.any(d > 0):
                 i = first(d > 0)
                 out.append(V('C18', 'fk_increased_within_run', site, 'run %d: fk %r -> %r' % (int(r_), ff[i], ff[i + 1])))
